@@ -190,6 +190,8 @@ def main(argv=None):
                 canaries += 1
             continue
         n_obl += 1
+        if o.meta.get("decided_by"):
+            res = dict(res, backend=o.meta["decided_by"])
         by_backend.setdefault(res["backend"], {"proved": 0, "solver_s": 0.0})
         if res["status"] == "proved":
             n_dis += 1
@@ -206,6 +208,7 @@ def main(argv=None):
         # refuted: replay the model on the real code
         model = res["info"] or {}
         assign = {k: C.parse_model_value(model.get(k, 0)) for k in o.meta.get("inputs", [])}
+        assign.update(o.meta.get("choices", {}))
         for k, (cn, sn) in o.meta.get("trig_inputs", {}).items():
             if k not in model and (cn in model or sn in model):
                 import math
